@@ -17,7 +17,7 @@ LEVEL = "exploration"
 RULE = (
     "same pair space as C01 (all stored ref/hyp over {0,1,2}, sizes 0..3 quick / 0..4 thorough, one "
     "ragged batch per (R,H), reversed order, single pairs); error_rate and prefix_error_rates under "
-    "4/8 cost triples x eos x include_eos x norm x batch_first x exclude_last; the count must lie in "
+    "4/8 cost triples x eos x include_eos x norm x batch_first x exclude_last x padding values (the usual negative ones and 0, 1, 2, which collide with legitimate counts and rates); the count must lie in "
     "[fewest, most] edits over all minimum-cost alignments (DP carrying both), equal plain "
     "Levenshtein for equal costs, and follow the 0/1 empty-reference convention. "
     "minimum_error_rate_loss: every (N<=2, M in {2,3}) sample set drawn from a seed-rotated slice of the "
@@ -112,56 +112,58 @@ def _check_batch(ctx, pairs, ref, hyp, eos, include_eos, cost, tier, tag, module
         for exclude_last in (False, True):
             if exclude_last and H == 0:
                 continue
-            padding = config.INDEX_PAD_VALUE if not exclude_last else -3
-            for api in (("functional", "module") if modules else ("functional",)):
-                try:
-                    if api == "functional":
-                        out = F.prefix_error_rates(r_in, h_in, padding=padding,
-                                                   exclude_last=exclude_last, warn=False, **kw)
-                    else:
-                        out = M.PrefixErrorRates(padding=padding, exclude_last=exclude_last, warn=False, **kw)(
-                            r_in, h_in)
-                    if batch_first:
-                        out = out.t()
-                    rows = H + (0 if exclude_last else 1)
-                    if tuple(out.shape) != (rows, N):
-                        raise AssertionError(f"shape {tuple(out.shape)} != {(rows, N)}")
-                    out = out.t().tolist()
-                    err = None
-                except Exception as e:
-                    err = e
-                for n in range(N):
-                    er, eh = effs[n]
-                    ctx.case(1, 1 if (er != eh and er and eh) else 0)
-                    case = dict(base_case, api=api, fn="prefix_error_rates", padding=padding,
-                                exclude_last=exclude_last, ref=pairs[n][0], hyp=pairs[n][1])
-                    if err is not None:
-                        ctx.violation({"api": "prefix_error_rates", "symptom": "raises",
-                                       "type": type(err).__name__}, case, {"error": str(err)[-400:]})
-                        break
-                    nvalid = len(eh) + (0 if exclude_last else 1)
-                    bad = []
-                    exp = []
-                    for j in range(H + (0 if exclude_last else 1)):
-                        if j < nvalid:
-                            lo, hi = bounds(n, j)
-                            if norm:
-                                if len(er) == 0:
-                                    lo = hi = 0.0 if j == 0 else 1.0
-                                else:
-                                    lo, hi = lo / len(er), hi / len(er)
+            # padding values that COLLIDE with legitimate counts / rates (1, 2, 0) next to the usual negative ones: a
+            # result must never be told from padding by its value
+            for padding in ((config.INDEX_PAD_VALUE, 1) if not exclude_last else (-3, 2, 0)):
+                for api in (("functional", "module") if modules else ("functional",)):
+                    try:
+                        if api == "functional":
+                            out = F.prefix_error_rates(r_in, h_in, padding=padding,
+                                                       exclude_last=exclude_last, warn=False, **kw)
                         else:
-                            lo = hi = float(padding)
-                        exp.append((lo, hi))
-                        if not (lo - 1e-5 <= out[n][j] <= hi + 1e-5):
-                            bad.append(j)
-                    if bad:
-                        ctx.violation(
-                            {"api": "prefix_error_rates", "symptom":
-                             "wrong-padding" if all(j >= nvalid for j in bad) else "count-outside-optimal-alignments",
-                             "norm": norm, "uniform": uniform, "exclude_last": exclude_last,
-                             "empty_ref": len(er) == 0},
-                            case, {"expected_ranges": exp, "observed": out[n], "bad_positions": bad})
+                            out = M.PrefixErrorRates(padding=padding, exclude_last=exclude_last, warn=False, **kw)(
+                                r_in, h_in)
+                        if batch_first:
+                            out = out.t()
+                        rows = H + (0 if exclude_last else 1)
+                        if tuple(out.shape) != (rows, N):
+                            raise AssertionError(f"shape {tuple(out.shape)} != {(rows, N)}")
+                        out = out.t().tolist()
+                        err = None
+                    except Exception as e:
+                        err = e
+                    for n in range(N):
+                        er, eh = effs[n]
+                        ctx.case(1, 1 if (er != eh and er and eh) else 0)
+                        case = dict(base_case, api=api, fn="prefix_error_rates", padding=padding,
+                                    exclude_last=exclude_last, ref=pairs[n][0], hyp=pairs[n][1])
+                        if err is not None:
+                            ctx.violation({"api": "prefix_error_rates", "symptom": "raises",
+                                           "type": type(err).__name__}, case, {"error": str(err)[-400:]})
+                            break
+                        nvalid = len(eh) + (0 if exclude_last else 1)
+                        bad = []
+                        exp = []
+                        for j in range(H + (0 if exclude_last else 1)):
+                            if j < nvalid:
+                                lo, hi = bounds(n, j)
+                                if norm:
+                                    if len(er) == 0:
+                                        lo = hi = 0.0 if j == 0 else 1.0
+                                    else:
+                                        lo, hi = lo / len(er), hi / len(er)
+                            else:
+                                lo = hi = float(padding)
+                            exp.append((lo, hi))
+                            if not (lo - 1e-5 <= out[n][j] <= hi + 1e-5):
+                                bad.append(j)
+                        if bad:
+                            ctx.violation(
+                                {"api": "prefix_error_rates", "symptom":
+                                 "wrong-padding" if all(j >= nvalid for j in bad) else "count-outside-optimal-alignments",
+                                 "norm": norm, "uniform": uniform, "exclude_last": exclude_last,
+                                 "empty_ref": len(er) == 0},
+                                case, {"expected_ranges": exp, "observed": out[n], "bad_positions": bad})
 
 
 def _mer_case(ctx, refs, hyps, logp, eos, include_eos, cost, norm, sub_avg, batch_first, ref3d, reduction):
